@@ -105,7 +105,7 @@ def run(rep: Report, ctx: Any) -> str:
     # ---- R05.1 / R05.2 per emission --------------------------------------------------------------------------------
     inadequate: dict[tuple[str, str], dict[str, Any]] = {}
     unreached = 0
-    int_enum_guard = _int_enum_guard(ix)
+    int_enum_guard = _int_enum_guard(ix, it)
     for ek, e in sorted(ji.emissions.items(), key=lambda kv: (kv[1].template, kv[1].macro, kv[1].expr, kv[1].ordinal, kv[1].state)):
         key = f"{e.template}::{e.macro}::{e.expr}#{e.ordinal}@{e.kind}<{e.hole}>"
         where = f"{PKG}/templates/{e.template}:{e.line}"
@@ -205,62 +205,33 @@ def _norm_ctor(ix: Any, where: str) -> str:
     return "?"
 
 
-def _int_enum_guard(ix: Any) -> bool:
+def _int_enum_guard(ix: Any, it: Any = None) -> bool:
     """Frozen idiom: int_enum.py.jinja is rendered only under a test that the enum's value_type is int, and
     EnumProperty.build rejects enums whose values are not all of one type - so its `{{ value }}` holes are ints.
-    Checked structurally: every render call on the template variable loaded from int_enum.py.jinja is inside an
-    `if/elif` whose test compares `.value_type` with `int`."""
-    proj = ix.cls("Project")
-    for f in proj.methods.values():
-        names = set()
-        for n in ast.walk(f.node):
-            if isinstance(n, ast.Assign) and isinstance(n.value, ast.Call) and (dotted(n.value.func) or "").endswith("get_template") \
-                    and n.value.args and isinstance(n.value.args[0], ast.Constant) and n.value.args[0].value == "int_enum.py.jinja":
-                names |= {t.id for t in n.targets if isinstance(t, ast.Name)}
-        if not names:
-            continue
-        ok_all = True
-        found = False
+    Decided on paths, not on the shape of the code: the abstract interpreter records, for every render call, the branch
+    conditions under which it is reached *for each template the receiver may be* (the rest of a block is interpreted once per
+    branch when the branches select different templates, so `t = A if c else B; t.render(...)` and `if c: A.render(...)` give
+    the same conditions).  Every render of int_enum.py.jinja must lie under `<x>.value_type is int` (or the false arm of
+    `is not int`)."""
+    if it is None:
+        return False
+    conds = it.render_conds.get("int_enum.py.jinja")
+    if not conds:
+        return False
 
-        def visit(body: list[ast.stmt], guarded: bool) -> None:
-            nonlocal ok_all, found
-            for st in body:
-                if isinstance(st, ast.If):
-                    t = ast.unparse(st.test)
-                    g = "value_type" in t and "int" in t and isinstance(st.test, ast.Compare)
-                    visit(st.body, g)
-                    visit(st.orelse, False)
-                    continue
-                for sub in ast.walk(st):
-                    if isinstance(sub, ast.Call) and isinstance(sub.func, ast.Attribute) and sub.func.attr == "render" \
-                            and isinstance(sub.func.value, ast.Name) and sub.func.value.id in names:
-                        found = True
-                        if not guarded:
-                            ok_all = False
-                for fld in ("body", "orelse", "finalbody"):
-                    sub_body = getattr(st, fld, None)
-                    if isinstance(sub_body, list) and sub_body and isinstance(sub_body[0], ast.stmt) and not isinstance(st, ast.If):
-                        pass
+    def is_int_test(src: str, pol: bool) -> bool:
+        try:
+            t = ast.parse(src, mode="eval").body
+        except SyntaxError:
+            return False
+        if isinstance(t, ast.Compare) and len(t.ops) == 1 and isinstance(t.left, ast.Attribute) and t.left.attr == "value_type" \
+                and isinstance(t.comparators[0], ast.Name) and t.comparators[0].id == "int":
+            if isinstance(t.ops[0], (ast.Is, ast.Eq)):
+                return pol
+            if isinstance(t.ops[0], (ast.IsNot, ast.NotEq)):
+                return not pol
+        return False
 
-        def walk(body: list[ast.stmt], guarded: bool) -> None:
-            nonlocal ok_all, found
-            for st in body:
-                if isinstance(st, ast.If):
-                    t = ast.unparse(st.test)
-                    g = isinstance(st.test, ast.Compare) and "value_type" in t and "int" in t
-                    walk(st.body, g)
-                    walk(st.orelse, False)
-                elif isinstance(st, (ast.For, ast.While, ast.With, ast.Try)):
-                    for fld in ("body", "orelse", "finalbody"):
-                        walk(getattr(st, fld, []) or [], guarded)
-                else:
-                    for sub in ast.walk(st):
-                        if isinstance(sub, ast.Call) and isinstance(sub.func, ast.Attribute) and sub.func.attr == "render" \
-                                and isinstance(sub.func.value, ast.Name) and sub.func.value.id in names:
-                            found = True
-                            if not guarded:
-                                ok_all = False
+    return all(any(is_int_test(src, pol) for src, pol in path) for path in conds)
 
-        walk(f.node.body, False)
-        return found and ok_all
-    return False
+
